@@ -91,6 +91,7 @@ def run_case(case, prefix):
     nops = case.get("nops", 3)
     w = H.World(variant="IK", burst=0, with_success=True)
     sc = S.Scheduler(prefix, trace_filter=H.trace_filter)
+    T = 7200.0 if fault.startswith("oversize") else 900.0      # 16 MiB through the pure-python codec is slow on a loaded machine
     inj = {"armed": False, "fired": 0}
     site = fault.split(":", 1)[1] if fault.startswith("inject:") else None
     if site:
@@ -220,10 +221,10 @@ def run_case(case, prefix):
             def early():
                 do_send(0, True, "A")
             w.connect()     # unmanaged: creates dispatcher double only (no thread yet)
-            status = sc.run_phase([("A", early)], timeout=600.0)
-            status = sc.run_phase([("net", lambda: (w.dispatchers[0].fire_connected(), net_loop(0)))], timeout=600.0)
+            status = sc.run_phase([("A", early)], timeout=T)
+            status = sc.run_phase([("net", lambda: (w.dispatchers[0].fire_connected(), net_loop(0)))], timeout=T)
         else:
-            status = sc.run_phase([("net", net_main)], timeout=600.0)
+            status = sc.run_phase([("net", net_main)], timeout=T)
         setup_points = len(sc.points)
         setup_ok = w.state() == "transport" and w.responders[0].phase == "transport"
         if setup_ok:
@@ -251,14 +252,14 @@ def run_case(case, prefix):
                 ops[:] = [(("S" if k <= pos else "R"), f) for k, (kk, f) in enumerate(ops)]
             if follow == "net" and direction == "up":
                 ops[:] = [(("R" if k <= pos else "S"), f) for k, (kk, f) in enumerate(ops)]
-            status = sc.run_phase(fns, timeout=600.0)
+            status = sc.run_phase(fns, timeout=T)
             mid_blocked = [(t.name, t.wait_desc) for t in sc.blocked()]
             mid_locks = w.locks()
             if reconnect:
                 def rc():
                     w.dispatchers[0].handle_close()
                     conn["reconnect"] = True
-                status = sc.run_phase([("closer", rc)], timeout=600.0)
+                status = sc.run_phase([("closer", rc)], timeout=T)
                 up2 = w.state() == "transport" and len(w.responders) > 1 and w.responders[1].phase == "transport"
                 conn["up2"] = up2
                 if up2:
@@ -266,7 +267,7 @@ def run_case(case, prefix):
                         do_send(100, False, "C")
                         frames_faulty.append((101, False))
                         server_write(101, False)
-                    status = sc.run_phase([("C", after)], timeout=600.0)
+                    status = sc.run_phase([("C", after)], timeout=T)
     except (S.HarnessStuck, S.ReplayDivergence) as e:
         error = e
         setup_points = len(sc.points)
